@@ -35,7 +35,10 @@ def tasks_for(plan, history=True, final=True, require=None, schemes=('asc', 'des
     """plan: list of (nmin, nmax, k)"""
     out = []
     for nmin, nmax, k in plan:
-        for tree in skeletons(nmin, nmax, history=history, final=final, require=require):
+        for tree in skeletons(nmin, nmax, history=history, final=final,
+                              require=require if require != 'hd+o' else None):
+            if require == 'hd+o' and not ("'HD'" in repr(tree) and "'O'" in repr(tree)):
+                continue
             for scheme in schemes:
                 for ivar in ((0, 1) if has_variant(tree) else (0,)):
                     for decl in decls:
@@ -47,9 +50,11 @@ def norm(s):
     return re.sub(r'n\d{3}', 'N', re.sub(r'\[[^\]]*\]', '[..]', str(s)))[:120]
 
 
-def run(pid, tier, seed, plan, oracle_names, categories, rule, assumptions, **kw):
+def run(pid, tier, seed, plan, oracle_names, categories, rule, assumptions, extra_plans=(), **kw):
     t0 = time.time()
     tasks = tasks_for(plan, oracle_names=oracle_names, **kw)
+    for eplan, ekw in extra_plans:
+        tasks += tasks_for(eplan, oracle_names=oracle_names, **dict(kw, **ekw))
     # largest first for load balance
     order = sorted(range(len(tasks)), key=lambda i: -len(repr(tasks[i][0])))
     results = harness.pmap(work, [tasks[i] for i in order], chunksize=4)
